@@ -116,6 +116,7 @@ type Machine struct {
 	done      chan *abortPath
 	sched     []int
 	preempts  int
+	schedOff  bool // sym.Schedules(false): the default schedule only, no delay is spent
 	mutexes   map[*value]*mutexState
 	wgs       map[*value]*wgState
 	onces     map[*value]*onceState
@@ -679,6 +680,7 @@ func (m *Machine) resetPath() {
 	m.done = make(chan *abortPath, 4)
 	m.sched = nil
 	m.preempts = 0
+	m.schedOff = false
 	m.mutexes = map[*value]*mutexState{}
 	m.wgs = map[*value]*wgState{}
 	m.onces = map[*value]*onceState{}
